@@ -122,7 +122,7 @@ CHECKS["C08"] = dict(
         "distinct points the witnesses aggregate with the set's Lagrange coefficients to the witness of the threshold key (witnesses_aggregate); the proof of knowledge built from it verifies under the threshold key (pok_verifies); end to end threshold_flow_complete. "
         "Tie: the arithmetic statements of all 17 functions are regenerated from the source and pinned; the real flow runs for every listed (n,t), message vector and signer subset.",
    design="4/C08",
-   note="Trusted: Lean kernel, Model/PsAlgebra.lean (statement lists pinned by extraction, transcription by reading), harness. Assumed: module/bilinearity structure of the curve library, parties numbered 1..n, sharing from the DKG (C05/C18).",
+   note="Trusted: Lean kernel, Model/PsAlgebra.lean (statement lists pinned by extraction, transcription by reading), harness. Assumed: module/bilinearity structure of the curve library, a party's evaluation point is its position in the party list + 1 (DKG and, since fix F31, prover; identifiers arbitrary), sharing from the DKG (C05/C18).",
    technique="Lean 4 proof (module algebra, Lagrange interpolation over polynomials) + regenerated equation lists + end-to-end runs of the real scheme")
 
 CHECKS["C09"] = dict(
